@@ -18,7 +18,8 @@ META = dict(
         quick="one centre, one-primitive shells (s, p, Cartesian d/f, pure d/f/g), orbitals = the normalised basis functions "
               "themselves; encodings: standard, ORCA, PSI4 <= 1.0, Turbomole, CFOUR 2.1, unnormalised contractions, "
               "PSI4 <= 1.3.2, and a corrupted one (factor 2 on one shell); exponents symbolic (all reals in [0.2, 30]) for "
-              "the s/p cases, from a rational grid otherwise; norm_threshold 1e-4; restricted and "
+              "the s/p cases, from a rational grid otherwise; norm_threshold 1e-4, and 1e-2 with orbitals scaled by a symbolic factor s with |s^2 - 1| <= threshold (every "
+              "branch must honour the caller's threshold); restricted and "
               "unrestricted (beta orbitals = the alpha ones in reverse order, both channels compared); the real _fix_molden_from_buggy_codes (with compute_overlap and the _fix_* helpers) runs on "
               "the terms; Molden and Molekel readers share this function",
         thorough="adds the ORCA encoding with s and p shells together, both exponents symbolic, and the thresholds 1e-5 / 1e-3 for "
@@ -89,7 +90,7 @@ EXPECT = {"standard": None, "orca": "ORCA", "psi4": "PSI4 < 1.0", "turbomole": "
           "unnormalized": "unnormalized contractions", "psi4-1.3.2": "PSI4 <= 1.3.2", "corrupt": "LoadError"}
 
 
-def h_cascade(ctx, vendor="orca", shells=((0, "c"), (1, "c")), symbolic=True, thr=1e-4, kind="restricted", twin=False):
+def h_cascade(ctx, vendor="orca", shells=((0, "c"), (1, "c")), symbolic=True, thr=1e-4, kind="restricted", twin=False, scaled=False):
     import iodata.attrutils as A
     import iodata.basis as B
     import iodata.convert as C
@@ -111,8 +112,13 @@ def h_cascade(ctx, vendor="orca", shells=((0, "c"), (1, "c")), symbolic=True, th
         true_shells = [dict(icenter=0, angmoms=[l], kinds=[k], exponents=[a], coeffs=[[1.0]]) for (l, k), a in zip(shells, exps)]
         ob = B.MolecularBasis(file_shells, M.CONVENTIONS, "L2")
         cmat = np.zeros((nb, nb), dtype=object if ctx.mode == "sym" else float)
+        sc = 1.0
+        if scaled:
+            # orbitals that are normalised only to within the caller's threshold (low-precision files): |sc^2 - 1| <= thr
+            sc = ctx.real("scale", lo=0.9, hi=1.1, default=1.0 + 0.3 * thr)
+            ctx.assume(And(sc * sc - 1.0 <= 0.999 * thr, 1.0 - sc * sc <= 0.999 * thr))
         for i in range(nb):
-            cmat[i, i] = cfac[i]
+            cmat[i, i] = cfac[i] * sc
         if kind == "restricted":
             mo = O.MolecularOrbitals("restricted", nb, nb, np.array([2.0] + [0.0] * (nb - 1)), cmat, np.arange(nb, dtype=float))
         else:
@@ -129,7 +135,7 @@ def h_cascade(ctx, vendor="orca", shells=((0, "c"), (1, "c")), symbolic=True, th
             except U.LoadError as e:
                 err = e
         msgs = [str(w.message) for w in wl if issubclass(w.category, U.LoadWarning)]
-        cls = f"{vendor},{'+'.join(f'{l}{k}' for l, k in shells)},thr={thr},{kind}"
+        cls = f"{vendor},{'+'.join(f'{l}{k}' for l, k in shells)},thr={thr},{kind}" + (",scaled" if scaled else "")
         want = EXPECT[vendor]
         if twin:
             want = "Turbomole"
@@ -195,6 +201,15 @@ def jobs(tier):
                                dict(vendor=vendor, shells=[list(s) for s in shells], symbolic=symbolic, thr=thr, kind=kind),
                                budget_s=400 if tier == "quick" else 3000, max_validate=3, oblige_timeout_ms=60000,
                                branch_timeout_ms=15000))
+    # orbitals normalised only to within a non-default threshold (every vendor branch must honour the caller's threshold)
+    for vendor, shells, symbolic in cases:
+        if symbolic or vendor == "corrupt":
+            continue
+        for thr in (1e-2,) + ((1e-3,) if tier == "thorough" else ()):
+            name = f"cascade-scaled[{vendor},{'+'.join(f'{l}{k}' for l, k in shells)},thr={thr}]"
+            out.append(job("C05", name, Mn, "h_cascade",
+                           dict(vendor=vendor, shells=[list(s) for s in shells], symbolic=False, thr=thr, kind="restricted", scaled=True),
+                           budget_s=400 if tier == "quick" else 3000, max_validate=3, oblige_timeout_ms=60000, branch_timeout_ms=15000))
     out.append(job("C05", "cascade[twin]", Mn, "h_cascade",
                    dict(vendor="orca", shells=[[0, "c"], [1, "c"]], symbolic=False, twin=True), expect="cex", max_validate=0))
     return out
